@@ -172,7 +172,10 @@ def copy(mesh : Mesh, copy_attributes=False, copy_connectivity=False) -> Mesh:
             copy_mesh.cell_faces._adj = deepcopy(mesh.cell_faces._adj)
         # _cont of face_corners and cell_corners are always empty
     if copy_connectivity and hasattr(mesh, "connectivity"):
-        copy_mesh.connectivity = mesh.connectivity
+        # copy the computed tables into the copy's own connectivity object (it must keep pointing to copy_mesh)
+        for key,val in mesh.connectivity.__dict__.items():
+            if key != "mesh":
+                setattr(copy_mesh.connectivity, key, deepcopy(val))
     return copy_mesh
 
 def merge(mesh_list : list) -> Mesh:
